@@ -18,6 +18,8 @@ const (
 	sigTLBLat1    = "tlb-latency-1-hang"        // a TLB built with Latency=1 never answers (queueing.Pipeline, C15)
 	sigMCRspTo    = "rsp-unmatched:mmucache"    // mmuCache answers with RspTo = its own bottom request ID
 	sigGMMURemote = "rsp-unmatched:gmmu-remote" // gmmu answers a remote walk with RspTo = the MMU response's ID
+	// Pause (not Drain) -> Invalidate -> Enable while a miss is in flight: the late fill re-installs the old mapping
+	sigPauseInval = "stale-after-pause-invalidate"
 )
 
 const c25CycleBudget = 2_000_000 // simulated cycles; legitimate runs need < 50k
@@ -103,6 +105,17 @@ func (j *c25Judge) allowed(pi int, tRecv, tRsp timing.VTimeInPicoSec, cached boo
 	return out
 }
 
+// staleSig names a stale observation by the kind of round that had forbidden
+// the old version: rounds that only Pause a busy cache are their own class.
+func (j *c25Judge) staleSig(base string, v version) string {
+	for _, r := range j.st.drv.rounds {
+		if r.done && r.invalDone == v.invalDone && r.mode == "pause" {
+			return sigPauseInval
+		}
+	}
+	return base
+}
+
 func (j *c25Judge) cachedFrom(level int) bool {
 	for i := level; i < len(j.st.levels); i++ {
 		if j.st.levels[i].kind == "tlb" {
@@ -143,15 +156,11 @@ func (j *c25Judge) judgeTranslations(res *c25Result, stats *c25Stats) bool {
 			}
 		}
 		if match < 0 {
-			stale := false
+			res.Sig = "wrong-translation:" + kind
 			for _, v := range j.hist[pi] {
 				if v.page == tr.page {
-					stale = true
+					res.Sig = j.staleSig("stale-translation:"+kind, v)
 				}
-			}
-			res.Sig = "wrong-translation:" + kind
-			if stale {
-				res.Sig = "stale-translation:" + kind
 			}
 			res.Msg = fmt.Sprintf("%s answered request %d (pid=%d vaddr=%#x from %s, received@%d) at %d with page %+v; page table history allows only [%s] (cached path=%v)",
 				l.name, tr.reqID, tr.req.pid, tr.req.vaddr, tr.req.src, tr.req.tRecv, tr.tRsp, tr.page, j.versionsStr(pi, al), cached)
@@ -237,8 +246,10 @@ func (j *c25Judge) judgeReads(res *c25Result, stats *c25Stats) bool {
 		if match < 0 {
 			res.Sig = "access-wrong-location"
 			where := j.locate(r.data, r.off, op.Page)
-			if strings.HasPrefix(where, "STALE") {
-				res.Sig = "stale-access"
+			for _, v := range j.hist[op.Page] {
+				if matchAt(v.page.PAddr) {
+					res.Sig = j.staleSig("stale-access", v)
+				}
 			}
 			p := j.c.Pages[op.Page]
 			res.Msg = fmt.Sprintf("%v: read pid=%d vaddr=%#x+%#x size=%d returned %x; allowed locations [%s]; the data is %s; memory saw %s",
@@ -483,16 +494,13 @@ func execC25(c c25Case) (res c25Result) {
 	flag(stats.reads > 0, "reads")
 	flag(stats.writes > 0, "writes")
 	flag(len(d.updates) > 0, "pt-update")
-	nDrain, nQuiesce := 0, 0
+	nRound := map[string]int{}
 	for _, r := range d.rounds {
-		if r.mode == "drain" {
-			nDrain++
-		} else {
-			nQuiesce++
-		}
+		nRound[r.mode]++
 	}
-	flag(nDrain > 0, "round-drain")
-	flag(nQuiesce > 0, "round-quiesce")
+	flag(nRound["drain"] > 0, "round-drain")
+	flag(nRound["quiesce"] > 0, "round-quiesce")
+	flag(nRound["pause"] > 0, "round-pause-busy")
 	flag(stats.oldSeen > 0, "old-mapping-served-in-window")
 	flag(stats.strictAfterInval > 0, "request-after-acked-invalidation")
 	flag(stats.afterUpdate > 0, "request-after-update")
@@ -517,7 +525,7 @@ func firstLine(s string) string {
 
 // ---------------------------------------------------------------- generator
 
-type c25Steer struct{ lat1, mc, gmmuRemote bool }
+type c25Steer struct{ lat1, mc, gmmuRemote, pause bool }
 
 func genC25(rt *rapid.T, steer c25Steer) (c c25Case, excluded int) {
 	c.Log2 = rapid.SampledFrom([]uint64{12, 12, 14, 16}).Draw(rt, "log2")
@@ -744,6 +752,7 @@ func c25Steering(s *kit.Session) c25Steer {
 	_, st.lat1 = s.IsKnown(sigTLBLat1)
 	_, st.mc = s.IsKnown(sigMCRspTo)
 	_, st.gmmuRemote = s.IsKnown(sigGMMURemote)
+	_, st.pause = s.IsKnown(sigPauseInval)
 	return st
 }
 
